@@ -103,6 +103,15 @@ pub fn decode(data: &[u8]) -> Result<(Decoded, Header), String> {
 			out.tiles.insert(Coord::new(level, x as u32, y as u32), bytes.to_vec());
 		}
 	}
+	// header fields that summarise the content
+	if let (Some(lo), Some(hi)) = (out.tiles.keys().map(|c| c.z).min(), out.tiles.keys().map(|c| c.z).max()) {
+		if lo < h.zoom_min || hi > h.zoom_max {
+			out.notes.push(format!("header zoom range {}..{} does not contain the tiles' levels {lo}..{hi}", h.zoom_min, h.zoom_max));
+		}
+	}
+	if h.bbox[0] > h.bbox[2] || h.bbox[1] > h.bbox[3] {
+		out.notes.push(format!("header bbox {:?} is inverted", h.bbox));
+	}
 	Ok((out, h))
 }
 
